@@ -6,6 +6,7 @@ Driver for C10.  One request per line, `k=v` fields separated by single spaces:
   op=greg K=<time|gDay|gMonth|gMonthDay> S=<cps>   op=lang S=<cps>   op=name K=<NCName|Name|NMTOKEN|QName> S=<cps>
   op=date K=<date|dateTime|dateTimeStamp|gYear|gYearMonth> V=<10|11> S=<cps>   op=str K=<string|untypedAtomic|normalizedString|token> S=<cps>
   op=qres N=<prefix cps>/<uri cps>|… (`-` = none) D=<cps of the default namespace, `-` = none> S=<cps>
+  op=castv A=<source type> B=<target type>   (answer: spec=<Y|M|N|?>:<1|0 permitted>)
   op=uri F=<0|1: urlparse raised> P=<cps of urlparse(...).path> S=<cps>
   op=tz S=<timezone text>   op=tzcanon M=<minutes>   op=dur K=<duration|yearMonthDuration|dayTimeDuration> S=<cps>
   op=hexenc|b64enc Y=<octets, comma separated, `_` = empty>
@@ -29,6 +30,7 @@ import EPV.Lemmas.LexicalGreg
 import EPV.Gen.C10Tables
 import EPV.Model.LexicalDate
 import EPV.Spec.XSDDateLex
+import EPV.Spec.XSDCastTable
 open EPV.Proto EPV
 
 def parseCPs (s : String) : Option (List Char) :=
@@ -366,6 +368,12 @@ def answer (line : String) : String :=
         | x :: r => (Lex.inRanges first x == XSD.inSet sf x) && r.all fun y => Lex.inRanges later y == XSD.inSet sl y
       out m m sp (flags s ++ (if alike then "" else "n"))
     | none => "bad-string"
+  else if op == "castv" then
+    let a := field fs "A"
+    let b := field fs "B"
+    let v := ((XSD.castVerdict (XSD.tableTypeOf a) (XSD.tableTypeOf b)).map XSD.Verdict.code).getD "?"
+    let tv := ((XSD.castVerdict a b).map XSD.Verdict.code).getD "-"
+    out tv tv s!"{v}:{if XSD.castAllowed a b then 1 else 0}" ""
   else if op == "qres" then
     let nsField := field fs "N"
     let pairs : Option (List (List Char × List Char)) :=
